@@ -811,7 +811,7 @@ def truncation(cx):
 
     rng = cx.rng
     sel = _selector(cx, 502)
-    nsamp = 1 if cx.quick else 14
+    nsamp = 1 if cx.quick else 36
     grid = list(itertools.product(TRUNC_PATHS, MODES, CUTOFFS, MAX_BONDS, RENORMS))
     # cases using the defaults of the signature / None
     extra = []
@@ -895,6 +895,43 @@ def truncation(cx):
 
                 cx.check("accelerated (numba) and generic implementation of the same split driver agree on rank, kept "
                          "values, error and product", dict(params, path="api-vs-generic"), t_rel)
+
+
+@driver("C05", "svd-eig-shortcuts", chunks=2, timeout=300,
+        bound="svd:eig without dynamic truncation (cutoff 0 / None, renorm 0, no info: the one-step route with its per-form "
+              "shortcuts), max_bond in {None,1,2,3}: accelerated and generic implementation x 11 forms x 4 dtypes x tall / wide / "
+              "square shapes up to 7x7 on prescribed spectra (cond<=7, degenerate, rank-deficient)")
+def svd_eig_shortcuts(cx):
+    warnings.simplefilter("ignore")
+    import quimb.tensor.decomp as qd
+
+    rng = cx.rng
+    idx = 0
+    shapes = ((5, 3), (3, 5), (4, 4), (7, 2), (2, 6), (1, 3), (3, 1), (7, 7))
+    for path, absorb, dtype, (m, n), max_bond, cutoff in itertools.product(("api", "generic"), CANON_SPELLINGS[1:], DTYPES, shapes,
+                                                                         (None, 1, 2, 3), (0.0, None)):
+        idx += 1
+        if cx.quick and (idx % 3):
+            continue
+        if _costly(cx, "svd:eig", dtype, path, idx // 3):
+            continue
+        if not cx.mine():
+            continue
+        form = FORM[absorb]
+        kind = _kinds("svd:eig")[(idx // 7) % 3]
+        x = _matrix(rng, m, n, dtype, kind, (1.0, 2.5)[(idx // 5) % 2])
+        params = dict(method="svd:eig", path=path, absorb=absorb, form=form, dtype=dtype, shape=[m, n], kind=kind, max_bond=max_bond,
+                      cutoff=cutoff, mode="rsum2", renorm=0, info=None)
+
+        def call(x=x, path=path, absorb=absorb, form=form, max_bond=max_bond, cutoff=cutoff):
+            _clear(qd)
+            if path == "generic":
+                return [Res(*_split3(_generic_call(qd, "svd:eig", x, form, cutoff, "rsum2", max_bond, 0, None)))]
+            return [Res(*_split3(qd.array_split(x, method="svd:eig", absorb=absorb, max_bond=max_bond, cutoff=cutoff)))]
+
+        entry = "array_split" if path == "api" else "generic split driver (_default_fn)"
+        _array_contracts(cx, entry, params, Lazy(call), [x], "svd:eig", form, dtype, cutoff=cutoff, mode="rsum2", max_bond=max_bond,
+                         renorm=0, allow_reject=False, dynamic=False)
 
 
 def _agree(ra, rg, x, tl, interval, form=None):
@@ -1144,7 +1181,7 @@ def labelled(cx):
 
     rng = cx.rng
     sel = _selector(cx, 504)
-    ncase = 2600 if cx.quick else 40000
+    ncase = 2600 if cx.quick else 90000
     for i in range(ncase):
         draws = [int(v) for v in sel.integers(0, 1 << 30, size=16)]
         if _costly(cx, LABEL_METHODS[draws[0] % len(LABEL_METHODS)], DTYPES[draws[2] % 4], "api", draws[1]):
